@@ -741,7 +741,7 @@ fn shape_of(w: &World, pre: &Option<(Value, Value, BigNum, usize)>, res: &str) -
         return if exact { "exact".into() } else { "burn".into() };
     }
     match added.len() {
-        0 => "topup-only".into(),
+        0 => if res == "ok" { "noout".into() } else { "topup-only".into() },
         1 => if has_assets(&added[0]) { "assets1".into() } else { "single".into() },
         n => if !has_assets(&added[n - 1]) { "assetsN+pure".into() } else if n == 2 && !has_assets(&added[0]) { "assets1+x".into() } else { "assetsN".into() },
     }
